@@ -13,6 +13,10 @@ while [ $# -gt 0 ]; do
   if [ "$1" = "--" ]; then TIER=$2; break; fi
   IDS+=("$1"); shift
 done
+export GOFLAGS=-mod=mod GOPROXY=off GOSUMDB=off GOTOOLCHAIN=local; unset GOWORK
+if [ -z "${LCV_NOBUILD:-}" ] && { [ ! -x bin/lcverif ] || [ -n "$(find lcv -name '*.go' -newer bin/lcverif 2>/dev/null | head -1)" ]; }; then
+  (cd lcv && go build -o ../bin/lcverif ./cmd/lcverif) || { echo "cannot build lcverif"; exit 2; }
+fi
 SRC=${LCV_SRC:-/repo}
 TMP=$(mktemp -d /tmp/lcv-mut-XXXXXX)
 trap 'rm -rf "$TMP"' EXIT
